@@ -87,11 +87,12 @@ package xrand
 //@   ghostinit F := 0
 //@   ghostinit p := lambda j int :: j
 //@   ghostinit q := lambda j int :: j
+//@   after call Next[0]: assert callresult0 >= iter(0, samp.first ? samp.i : samp.i + 1) && (callresult1 == iter(0, F) || (callresult1 < iter(0, F) && iter(0, F) == k))
 //@   after store out[0]: ghost F := (replace + 1 > F ? replace + 1 : F)
 //@   after call rShuffle[0]: ghost p := callghost_p
 //@   after call rShuffle[0]: ghost q := callghost_q
 //@   loop 0: invariant len(out) == k && fresh(out) && off(out) == 0 && samp.k == k && samp.i >= 0
-//@   loop 0: invariant 0 <= F && F <= k && (samp.first ==> F == samp.i && samp.i <= k) && (!samp.first ==> F == k && samp.i >= k - 1)
+//@   loop 0: invariant 0 <= F && F <= k && (samp.first ==> F == samp.i && samp.i <= k) && (!samp.first ==> F == k && samp.i >= k)
 //@   loop 0: invariant forall j int {out[j]} :: 0 <= j && j < F ==> 0 <= out[j] && out[j] < n && out[j] < (samp.first ? samp.i : samp.i + 1)
 //@   loop 0: invariant forall j1 int, j2 int {out[j1], out[j2]} :: 0 <= j1 && j1 < j2 && j2 < F ==> out[j1] != out[j2]
 //@   ensures len(result) == min(k, n)
